@@ -8,7 +8,7 @@ if [ -d "$src" ]; then
   python3 /verif/tools/confirm_seed.py $src > /tmp/wt/confirm_$id$w.json; rc=$?
   grep -E '"confirmed"|FAIL|PASSES' /tmp/wt/confirm_$id$w.json
   [ $rc -ne 0 ] && { echo "NOT CONFIRMED $id$w"; cat /tmp/wt/confirm_$id$w.json; exit 1; }
-  mkdir -p $dst && cp $src/patch.diff $src/demo_test.go $src/meta.json $dst/
+  mkdir -p $dst && cp $src/patch.diff $src/demo_test.go $src/meta.json $dst/; cp $src/patch_A.diff $src/patch_B.diff $dst/ 2>/dev/null
   git -C /repo worktree remove --force /tmp/wt/$id$w; rm -rf /tmp/wt/$id$w
 fi
 python3 /verif/tools/mutate.py --no-corpus patch $dst/patch.diff $id "$@" 2>&1 | cut -c1-600
